@@ -25,10 +25,16 @@ class SimCrash(BaseException):
 
 
 class Fault(object):
-    __slots__ = ("kind", "path", "at", "errno", "fired", "n")
+    """at: fires at the first matching raw operation whose per-path index is >= at.  frac (optional, write/read
+    faults): instead fires at the first matching raw operation whose index *since the faults were armed* is
+    >= frac * expected number of raw operations (SimFS.expected_ops), i.e. anywhere inside the transfer, also
+    in its last bytes."""
 
-    def __init__(self, kind, path="*", at=0, errno=28, n=1):
+    __slots__ = ("kind", "path", "at", "errno", "fired", "n", "frac")
+
+    def __init__(self, kind, path="*", at=0, errno=28, n=1, frac=None):
         self.kind, self.path, self.at, self.errno, self.n = kind, path, at, errno, n
+        self.frac = frac
         self.fired = 0
 
     def matches(self, path):
@@ -147,6 +153,8 @@ class SimRaw(io.RawIOBase):
 class SimFS(object):
     def __init__(self, faults=(), chunk=0, short_reads=None):
         self.files = {}
+        self.expected_ops = {}  # fault kind -> expected number of raw operations of one transfer (for Fault.frac)
+        self.epoch = {}
         self.faults = list(faults)
         self.chunk = chunk
         self.short_reads = short_reads  # list of per-read byte limits (cycled) or None
@@ -166,11 +174,41 @@ class SimFS(object):
         self.counters[(path, op)] = k + 1
         return k
 
+    @property
+    def faults(self):
+        return self._faults
+
+    @faults.setter
+    def faults(self, value):
+        # arming: positions given as a fraction count raw operations from here
+        self._faults = list(value)
+        self.epoch = {}
+
+    def expect_transfer(self, nbytes, bufsize=-1):
+        """tell the simulator how large one transfer of the workload is, so that Fault.frac can be placed inside it"""
+        buf = bufsize if bufsize and bufsize > 0 else 8192
+        step = min(x for x in (self.chunk or buf, buf) if x)
+        w = -(-max(1, nbytes) // step) + 1
+        if self.short_reads:
+            r = -(-max(1, nbytes) // max(1, sum(self.short_reads) // len(self.short_reads))) + 1
+        else:
+            r = -(-max(1, nbytes) // 8192) + 1
+        self.expected_ops = {"F2": w, "F4": w, "F6": r}
+
     def fault_for(self, path, kind, k):
-        for f in self.faults:
-            if f.kind == kind and f.fired < f.n and f.matches(path) and k >= f.at:
-                return f
-        return None
+        e = self.epoch.get(kind, 0)
+        hit = None
+        for f in self._faults:
+            if f.kind == kind and f.fired < f.n and f.matches(path):
+                if f.frac is not None:
+                    if e >= int(f.frac * max(1, self.expected_ops.get(kind, 1))):
+                        hit = f
+                        break
+                elif k >= f.at:
+                    hit = f
+                    break
+        self.epoch[kind] = e + 1
+        return hit
 
     def fire(self, f):
         f.fired += 1
